@@ -489,6 +489,29 @@ func c04(r *Report) {
 		// side's end is passed on) does not wait for the opposite copy direction
 		shapedCloseNeverWaitsRule(r)
 		bucketDrainRule(r)
+		// a listener-wide bucket is never locked across the copy of a tunnel direction: the callback
+		// of FillThrottleLocked does not run io.Copy / io.CopyN (one tunnel would hold the lock for
+		// its whole life and every other connection's bytes and end-of-stream would wait for it)
+		nl := 0
+		for _, f := range r.W.Funcs("trafficshape") {
+			for _, c := range plainCalls(f, "(*M/trafficshape.Bucket).FillThrottleLocked") {
+				nl++
+				bad := false
+				for v := range r.W.backSlice(c.Call.Args[1], flowOpt{}) {
+					if mc, isMc := v.(*ssa.MakeClosure); isMc {
+						if cf, isF := mc.Fn.(*ssa.Function); isF && len(calls(cf, "io.CopyN", "io.Copy", "io.CopyBuffer")) > 0 {
+							bad = true
+						}
+					}
+				}
+				r.Decide("lockset", fnName(f)+": "+site(f, c)+" holds the bucket's lock for one bounded write only", !bad, "the callback performs a single Read/Write", "the bucket's lock is held across io.Copy / io.CopyN, i.e. for as long as the peer keeps sending: on the listener-wide bucket every other connection stalls behind one tunnel", c.Pos())
+			}
+		}
+		r.Decide("lockset", "shaped writes use the locked fill", nl >= 1, fmt.Sprintf("%d FillThrottleLocked site(s)", nl), "no FillThrottleLocked call found", token.NoPos)
+	})
+
+	r.Guard("C04.R1", "a proxy without MITM configured never takes the MITM branch: no typed-nil interface field", func() {
+		typedNilFieldRule(r, "")
 	})
 
 	r.Guard("C04.R6", "no unflushed buffer sits between the two sockets", func() {
